@@ -44,7 +44,7 @@ def types_menu(tier):
             if kind is None:
                 for zt in (None, False, True):
                     for length in (None, 0, 2):
-                        for size in (None, 4):
+                        for size in (None, 0, 4):      # fixed-size="0" is a stored size, not "no size"
                             if length is not None and size is not None:
                                 continue   # ArrayTypeBlob.dimensions is a union: both cannot be represented
                             out.append(('arr:%s:c:zt=%s:len=%s:size=%s' % (en, zt, length, size),
@@ -598,9 +598,54 @@ def gen_callable_flags_x_attrs(tier):
         k += 1
 
 
+def gen_shadow_pairs(tier):
+    """A (rename-to) pair - `x` shadowed-by `x_full`, `x_full` shadows `x` - for every callable kind in every host:
+    only the shadowing callable is compiled, under the shadowed name."""
+    def pair(cls, host, x='x', **kw):
+        a = cls(x, Ret(B('gint')) if cls is not Constructor else Ret(I(host, 'C' + host), 'full'), [Param('a', B('gint'))],
+                symbol='c_%s_%s' % (host.lower(), x), shadowed_by=x + '_full', **kw)
+        b = cls(x + '_full', Ret(B('gint')) if cls is not Constructor else Ret(I(host, 'C' + host), 'full'),
+                [Param('a', B('gint')), Param('b', B('utf8'))], symbol='c_%s_%s_full' % (host.lower(), x), shadows=x, **kw)
+        return [a, b]
+    yield ('shadow-pair:function', pair(Function, 'Top'))
+    for union in (False, True):
+        n = 'ShU' if union else 'ShR'
+        inst = dict(instance=(I(n, 'C' + n), 'none'))
+        yield ('shadow-pair:%s' % ('union' if union else 'record'),
+               RecordN(n, [FieldN('v', B('gint'))], pair(Method, n, **inst) + pair(Function, n, 'y'), union=union))
+        yield ('shadow-pair:%s-ctor' % ('union' if union else 'record'),
+               RecordN(n + 'K', [FieldN('v', B('gint'))], pair(Constructor, n + 'K'), union=union))
+    yield ('shadow-pair:class', ClassN('ShC', parent='Obj', methods=pair(Method, 'ShC', instance=(I('ShC', 'CShC'), 'none')) + pair(Function, 'ShC', 'y')))
+    yield ('shadow-pair:class-ctor', ClassN('ShCK', parent='Obj', methods=pair(Constructor, 'ShCK')))
+    yield ('shadow-pair:iface', ClassN('ShI', interface=True, methods=pair(Method, 'ShI', instance=(I('ShI', 'CShI'), 'none'))))
+    yield ('shadow-pair:enum', EnumN('ShE', [Member('a', 0)], functions=pair(Function, 'ShE')))
+
+
+class _IPtrRec(I):
+    """Reference to a record that IS a pointer typedef / disguised: the bare C name is a pointer."""
+
+    def expect(self, out=False):
+        e = I.expect(self, out)
+        e['pointer'] = 1
+        return e
+
+
+def gen_pointer_record_refs(tier):
+    """Records that are pointer typedefs (pointer="1") or disguised, referenced by name BEFORE and AFTER their own
+    element in the document (parameter, return value, field, method of another record)."""
+    for flagname in ('pointer', 'disguised'):
+        for order in ('before', 'after', 'both'):
+            def users(sfx):
+                return [Function('use_%s' % sfx, Ret(_IPtrRec('Handle', 'CHandle', byref=0), 'none'), [Param('h', _IPtrRec('Handle', 'CHandle', byref=0))]),
+                        RecordN('Holder%s' % sfx.capitalize(), [FieldN('h', _IPtrRec('Handle', 'CHandle', byref=0)), FieldN('n', B('gint'))])]
+            handle = RecordN('Handle', [], **{flagname: True})
+            ents = (users('a') if order in ('before', 'both') else []) + [handle] + (users('z') if order in ('after', 'both') else [])
+            yield ('solo:ptr-record:%s:%s' % (flagname, order), ents)
+
+
 ALL_GENS = [gen_callbacks, gen_enums, gen_records, gen_classes, gen_functions, gen_type_positions, gen_constants,
             gen_attr_everywhere, gen_same_type_everywhere, gen_return_flags,
-            gen_attr_table_edges, gen_name_clash, gen_alias_chains, gen_dependency_sets, gen_callable_flags_x_attrs]
+            gen_attr_table_edges, gen_name_clash, gen_alias_chains, gen_dependency_sets, gen_callable_flags_x_attrs, gen_shadow_pairs, gen_pointer_record_refs]
 
 # entries every batch needs because other entries refer to them by name
 SUPPORT = ('cb-basic', 'enum-En', 'rec-Rec', 'class-Obj', 'class-ObjClass', 'iface-IfA', 'iface-IfB', 'iface-IfC', 'alias')
